@@ -3,6 +3,7 @@ package main
 // C07 — Service: deposits and fees are conserved across escrow, providers and consumers.
 
 import (
+	"os"
 	"fmt"
 	"go/token"
 	"go/types"
@@ -227,7 +228,10 @@ func runC07(cx *Ctx, r *Report) {
 				// same condition: both under ¬Empty(msg.Deposit)
 				_, g1 := d[0].fact(false, "sdk.Coins.Empty(msg.Deposit)")
 				_, g2 := p.fact(false, "sdk.Coins.Empty(msg.Deposit)")
-				ok = g1 && g2 && d[0].ev.Fr == p.ev.Fr && instrReaches(d[0].ev.Site, p.ev.Site) && persistedAfter(d[0], evs, "service:ServiceBindingKey=0x02")
+				ok = g1 && g2 && hostFrame(d[0].ev.Fr) == hostFrame(p.ev.Fr) && reachesBefore(d[0].ev, p.ev) && persistedAfter(d[0], evs, "service:ServiceBindingKey=0x02")
+				if os.Getenv("DEBUG_C07") != "" {
+					fmt.Fprintf(os.Stderr, "deposit %s: g1=%v g2=%v host=%v ordered=%v persisted=%v\n", name, g1, g2, hostFrame(d[0].ev.Fr) == hostFrame(p.ev.Fr), orderedBefore(d[0].ev, p.ev), persistedAfter(d[0], evs, "service:ServiceBindingKey=0x02"))
+				}
 			}
 			how = "Deposit += msg.Deposit and the payment are both under ¬Empty(msg.Deposit)"
 		}
@@ -259,7 +263,7 @@ func runC07(cx *Ctx, r *Report) {
 		}
 		mark(sl...)
 		for _, s := range sl {
-			as := pick(evs, "assign:ServiceBinding.Deposit", func(x hev) bool { return x.ev.Fr == s.ev.Fr })
+			as := pick(evs, "assign:ServiceBinding.Deposit", func(x hev) bool { return x.ev.Fr == hostFrame(s.ev.Fr) })
 			slashed := lastArgS(s.ev)
 			ok := len(as) == 1 && s.ev.Args[2].LooseString() == "keeper.feeCollectorName"
 			if ok {
@@ -295,7 +299,11 @@ func runC07(cx *Ctx, r *Report) {
 			// forwards the tax and raises the owner tally: the closest such events
 			tax, fr := closestTo(p, pick(evs, "bank.SendCoinsFromModuleToModule", func(x hev) bool { return x.ev.Args[1].LooseString() == reqAcc }))
 			ot, fr2 := closestTo(p, pick(evs, "store.set", func(x hev) bool { return hasPrefix(x.ev, "service:OwnerEarnedFeesKey=0x19") }))
-			ok := len(tax) == 1 && len(ot) == 1 && fr == fr2 && fr != nil && tax[0].ev.Args[2].LooseString() == "keeper.feeCollectorName"
+			// (both frames lie on the chain of the provider-tally write; the step is the upper one)
+			if fr != nil && fr2 != nil && fr2.Depth < fr.Depth {
+				fr = fr2
+			}
+			ok := len(tax) == 1 && len(ot) == 1 && fr != nil && fr2 != nil && tax[0].ev.Args[2].LooseString() == "keeper.feeCollectorName"
 			if ok {
 				taxS := lastArgS(tax[0].ev)
 				earned := findSub(p.ev.Args[1], func(x *Term) bool { return x.Op == "call" && x.Name == "sdk.Coins.SafeSub" })
@@ -484,4 +492,11 @@ func closestTo(a hev, cands []hev) ([]hev, *Frame) {
 		}
 	}
 	return out, best
+}
+
+// reachesBefore: on the lowest common frame of the two events, the site of a can be followed
+// by the site of b (a is not necessarily on every path to b).
+func reachesBefore(a, b *Event) bool {
+	_, sa, sb := commonFrame(a, b)
+	return sa != nil && sb != nil && sa != sb && instrReaches(sa, sb)
 }
